@@ -412,6 +412,36 @@ def election_monitors(scripts, table):
     return fails + c17b.monitors(scripts, table)
 
 
+def shrink_script(ctx, script, law, rounds=6):
+    """-> (smaller script, implementation's answer, detail) on which [law] still fails on the implementation, or None"""
+    w = script.split()
+    head, evs = w[:2], w[2:]
+    best = None
+    for _ in range(rounds):
+        cands = []
+        for size in sorted(set([max(1, len(evs) // 2), max(1, len(evs) // 4), 3, 2, 1]), reverse=True):
+            for j in range(0, len(evs), 1 if size <= 3 else size):
+                c = evs[:j] + evs[j + size:]
+                if c and len(c) < len(evs):
+                    cands.append(" ".join(head + c))
+        for j in range(1, len(evs)):
+            cands.append(" ".join(head + evs[:j]))
+        cands = list(dict.fromkeys(cands))[:400]
+        if not cands:
+            break
+        rc, ans, _ = ctx.run_main_lines("c17", cands, timeout=600)
+        if rc != 0 or len(ans) != len(cands):
+            break
+        t = dict(zip(cands, ans))
+        hits = [(c, d) for l, c, d in election_monitors(cands, t) if l == law]
+        if not hits:
+            break
+        c, d = min(hits, key=lambda x: len(x[0].split()))
+        best = (c, t[c], d)
+        evs = c.split()[2:]
+    return best
+
+
 def run_election(ctx):
     ok, out = ctx.build_main()
     if not ok:
@@ -437,7 +467,19 @@ def run_election(ctx):
         return
     table = dict(zip(scripts, impl))
     fails = election_monitors(scripts, table)
+    # the first failing script of every law is shrunk on the implementation (events removed while the same
+    # law still fails on the real code's trace) and reported first
+    known = set(f["key"] for f in ctx.load_findings() if f["property"] == ctx.pid)
+    shrunk, seen_laws = [], set()
     for law, case, detail in fails:
+        if law in seen_laws or law in known or ctx.replay:
+            continue
+        seen_laws.add(law)
+        small = shrink_script(ctx, case, law)
+        if small and small[0] != case:
+            table[small[0]] = small[1]
+            shrunk.append((law, small[0], small[2] + "; shrunk from: " + case))
+    for law, case, detail in shrunk + fails:
         ctx.violation("monitor", law, "law %s fails on the implementation: %s (%s)" % (law, case, detail),
                       {"case": case, "impl": table.get(case), "law": law, "detail": detail})
     # a script on which the implementation died is reported by the monitor law el-health-panic (with the
